@@ -2,6 +2,7 @@
 import json
 import os
 import sys
+import time
 import traceback
 
 
@@ -13,6 +14,10 @@ def main():
     reach.start()
     mod = common.load_prop(prop)
     ctx = common.Ctx(prop, desc, workdir)
+    if desc.get("tz"):
+        os.environ["TZ"] = desc["tz"]
+        time.tzset()
+        ctx.count("shards_under_tz:" + desc["tz"])
     try:
         if "replay" in desc:
             mod.replay(desc["replay"], ctx)
